@@ -64,7 +64,9 @@ WalkTE(D, G, te, k, acc) ==
     ELSE LET n == G[k] IN
     CASE te.k \in PrimTEs -> IF n.k = PrimKind(te.k) /\ n.lt = "none" THEN Yes(acc) ELSE No(acc)
       [] te.k = "bytearr" -> IF n.k = "fixed" /\ n.lt = "none" /\ n.size = te.n THEN Yes(acc) ELSE No(acc)
-      [] te.k = "lt" -> IF n.k = PrimKind(te.t.k) /\ n.lt = te.lt THEN Yes(acc) ELSE No(acc)
+      [] te.k = "lt" -> IF te.t.k = "bytearr"        \* a logical type over a byte array: a named fixed of that size (duration, decimal)
+                        THEN (IF n.k = "fixed" /\ n.size = te.t.n /\ n.lt = te.lt THEN Yes(acc) ELSE No(acc))
+                        ELSE IF n.k = PrimKind(te.t.k) /\ n.lt = te.lt THEN Yes(acc) ELSE No(acc)
       [] te.k = "opt" ->
             IF n.k = "union" /\ n.lt = "none" /\ Len(n.variants) = 2 /\ KeyOk(G, n.variants[1]) /\ G[n.variants[1]].k = "null"
             THEN WalkTE(D, G, te.t, n.variants[2], acc) ELSE No(acc)
